@@ -222,7 +222,7 @@ impl<'a> FollowFileExecutor<'a> {
             return Ok(());
         }
 
-        for input_line in FollowFileIterator::new(self.reader.take().unwrap()) {
+        for input_line in FollowFileIterator::with_running(self.reader.take().unwrap(), self.running.clone()) {
             if !self.running.load(Ordering::SeqCst) {
                 break;
             }
